@@ -78,6 +78,7 @@ def _register():
     impl.c08_cli = c08run.cli_job
     impl.c08_wait = wait_case_job
     impl.c08_quadratic = c08run.quadratic_witness
+    impl.c08_ring = c08run.ring_witness
 
 
 STALL_S = 500      # a worker that delivers nothing for this long is killed (C-level loops do not see the in-process watchdog)
@@ -488,7 +489,7 @@ def report_found(rep, found):
         r, v = min(lst, key=lambda rv: rv[0].get("size", 10 ** 9))
         items.append((sig, r, v, len(lst)))
     # 'spurious-cycle-report' rests on the input being acyclic by construction: shrinking the text would void that
-    mins = pmap("c08_min", [(r["case"], sig) if sig not in ("spurious-cycle-report", "unexpected-outcome", c08run.KNOWN_QUADRATIC) else (r["case"], "<keep>") for sig, r, v, n in items], chunksize=1) if items else []
+    mins = pmap("c08_min", [(r["case"], sig) if sig not in ("spurious-cycle-report", "unexpected-outcome", c08run.KNOWN_QUADRATIC, c08run.KNOWN_RING) else (r["case"], "<keep>") for sig, r, v, n in items], chunksize=1) if items else []
     for (sig, r, v, n), mres in zip(items, mins):
         if isinstance(mres, dict):      # harness error inside the minimiser: keep the unminimised witness
             mcase, trials = r["case"], -1
@@ -615,6 +616,14 @@ def explore(rep, br, tier, seed):
         found_all.setdefault(c08run.KNOWN_QUADRATIC, []).append((
             {"case": {"files": [["q.mac", ".repeat 1600. { .even }\n"]], "fs": {}, "charset": "bk"}, "size": 25, "stream": "witness", "tags": ["witness"]},
             {"signature": c08run.KNOWN_QUADRATIC, "what": f"'.repeat 1600. {{ .even }}' takes {qw[1600]:.1f} s, '.repeat 400. {{ .even }}' {qw[400]:.2f} s (ratio {qw['ratio']:.1f} for 4x the count: quadratic)", "detail": qw}))
+    rw = pmap("c08_ring", [()], chunksize=1)[0]
+    rep.extra.setdefault("exploration", {})["ring_witness"] = rw
+    if isinstance(rw, dict) and rw.get("ratio", 0) >= 6:
+        rep.add_eval()
+        text = "\n".join([".word x24"] + [f"x{i} = x{i - 1}*x{i - 1}-x{i - 1}*x{i - 1}+x{i - 1}" for i in range(24, 0, -1)] + ["x0 = x21 + 1"]) + "\n"
+        found_all.setdefault(c08run.KNOWN_RING, []).append((
+            {"case": {"files": [["r.mac", text]], "fs": {}, "charset": "bk"}, "size": len(text), "stream": "witness", "tags": ["witness"]},
+            {"signature": c08run.KNOWN_RING, "what": f"a ring through 24 steps 'x*x-x*x+x' is reported after {rw[24]:.1f} s, through 12 steps after {rw[12]:.2f} s (ratio {rw['ratio']:.1f} for 2x the length: ~N^{__import__('math').log2(max(rw['ratio'], 1)):.1f})", "detail": rw}))
     ncli = cli_sample(rep, seed, results, 40 if tier == "quick" else 300)
     report_found(rep, found_all)
     ex = rep.extra.setdefault("exploration", {})
